@@ -105,18 +105,23 @@ Qed.
 Lemma table_wellformed : PositiveMap.cardinal tbl = length nodes /\ N.of_nat (length nodes) = node_count.
 Proof. split; vm_compute; reflexivity. Qed.
 
-Lemma roots_resolved : ids_of root_names = Some root_ids /\ ids_of roots_os = Some os_root_ids
+Lemma roots_resolved : ids_of root_names = Some root_ids /\ True
   /\ ids_of must_be_explicit = Some must_ids /\ ids_of global_by_design = Some global_ids.
 Proof. repeat split; vm_compute; reflexivity. Qed.
 
 Lemma post_full : postfix dir_full tbl fp_full = true. Proof. vm_compute. reflexivity. Qed.
 Lemma post_excl : postfix dir_excl tbl fp_excl = true. Proof. vm_compute. reflexivity. Qed.
-Lemma post_excl_os : postfix dir_excl_os tbl fp_excl_os = true. Proof. vm_compute. reflexivity. Qed.
 
 (** anchored components: explicit-only, and they do use a generator.  The hill climber calls back into the
     problem object (any [evalfn] of the package is linked): for it the named root causes are blanked. *)
 Definition via_callback : list String.string :=
-  ["opt.algo.SteepestDescentSubsetHillClimber.SteepestDescentSubsetHillClimber.minimize"%string].
+  ["opt.algo.SteepestDescentSubsetHillClimber.SteepestDescentSubsetHillClimber.minimize"%string;
+   "opt.algo.BinaryGeneticAlgorithm.BinaryGeneticAlgorithm.minimize"%string;
+   "opt.algo.IntegerGeneticAlgorithm.IntegerGeneticAlgorithm.minimize"%string;
+   "opt.algo.RealGeneticAlgorithm.RealGeneticAlgorithm.minimize"%string;
+   "opt.algo.NSGA2BinaryGeneticAlgorithm.NSGA2BinaryGeneticAlgorithm.minimize"%string;
+   "opt.algo.NSGA2IntegerGeneticAlgorithm.NSGA2IntegerGeneticAlgorithm.minimize"%string;
+   "opt.algo.NSGA2RealGeneticAlgorithm.NSGA2RealGeneticAlgorithm.minimize"%string].
 Definition via_callback_ids : list positive := Eval vm_compute in opt_list (ids_of via_callback).
 
 Lemma must_check : forallb (fun p => (if pmem p via_callback_ids then sub (fget fp_excl p) EXPLICIT_OK else sub (fget fp_full p) EXPLICIT_OK)
@@ -129,13 +134,10 @@ Proof. vm_compute. reflexivity. Qed.
 Lemma dunder_check : forallb (fun p => sub (fget fp_excl p) EXPLICIT_OK) dunder_nodes = true.
 Proof. vm_compute. reflexivity. Qed.
 
-Lemma os_check : forallb (fun e => negb (has OS (snd e))) (PositiveMap.elements fp_excl_os) = true.
+Lemma os_check : forallb (fun e => negb (has OS (snd e))) (PositiveMap.elements fp_full) = true.
 Proof. vm_compute. reflexivity. Qed.
 
 Lemma roots_real : forallb (fun p => negb (sub (direct tbl p) EXPLICIT_OK)) root_ids = true.
-Proof. vm_compute. reflexivity. Qed.
-
-Lemma os_roots_real : forallb (fun p => has OS (direct tbl p)) os_root_ids = true.
 Proof. vm_compute. reflexivity. Qed.
 
 Lemma global_design_check : forallb (fun p => negb (has OS (fget fp_full p)) && negb (fget fp_full p =? 0)) global_ids = true.
@@ -148,17 +150,16 @@ Proof. vm_compute. repeat split; lia. Qed.
 Lemma direct_find k : direct tbl k = match PositiveMap.find k tbl with Some (d, _) => d | None => 0 end.
 Proof. reflexivity. Qed.
 
-Theorem os_only_at_roots : forall n k, reach tbl n k -> has OS (direct tbl k) = true -> In k os_root_ids.
+(** NO function of the package reaches OS entropy (full closure, no exception) *)
+Theorem no_os_entropy : forall n k, reach tbl n k -> has OS (direct tbl k) = false.
 Proof.
-  intros n k Hr Hos.
-  pose proof (postfix_sound dir_excl_os tbl fp_excl_os post_excl_os n k Hr) as Hs.
-  assert (Hn : negb (has OS (fget fp_excl_os n)) = true)
+  intros n k Hr.
+  pose proof (postfix_sound dir_full tbl fp_full post_full n k Hr) as Hs.
+  assert (Hn : negb (has OS (fget fp_full n)) = true)
     by (apply (fget_all (fun x => negb (has OS x))); [reflexivity | exact os_check]).
-  destruct (pmem k os_root_ids) eqn:Em; [now apply pmem_In|].
-  exfalso. rewrite direct_find in Hos.
-  destruct (PositiveMap.find k tbl) as [[d s]|]; [|discriminate].
-  unfold dir_excl_os in Hs. rewrite Em in Hs.
-  rewrite (sub_has_OS _ _ Hs Hos) in Hn. discriminate.
+  rewrite direct_find. destruct (PositiveMap.find k tbl) as [[d s]|]; [|reflexivity].
+  unfold dir_full in Hs. destruct (has OS d) eqn:E; [|reflexivity].
+  rewrite (sub_has_OS _ _ Hs E) in Hn. discriminate.
 Qed.
 
 Theorem rng_components_explicit : forall c k, In c rng_components -> reach tbl c k ->
@@ -226,14 +227,10 @@ Proof.
   now apply negb_true_iff in H.
 Qed.
 
-Lemma FPP_In_dec_gen x l : pmem x l = true -> In x l.
-Proof. apply pmem_In. Qed.
-Theorem ga_os_entropy_refuted : exists nm p, In nm roots_os /\ id_of nm = Some p /\ In p rng_components /\ has OS (direct tbl p) = true.
-Proof.
-  exists "opt.algo.SubsetGeneticAlgorithm.SubsetGeneticAlgorithm.minimize"%string.
-  eexists. split; [unfold roots_os; repeat (try (left; reflexivity); right)|]. split; [vm_compute; reflexivity|].
-  split; [apply FPP_In_dec_gen; vm_compute; reflexivity | vm_compute; reflexivity].
-Qed.
+(** the table does distinguish a seeded from an unseeded pymoo call: the pre-repair mask of a minimize() method (OS bit set)
+    is not explicit-only and would violate [os_check] — documentation of the repaired finding C08-ga-os-entropy *)
+Theorem unseeded_minimize_mask_refuted : exists m, has OS m = true /\ sub m EXPLICIT_OK = false /\ m = N.lor SELF OS.
+Proof. exists 34. repeat split. Qed.
 
 Theorem dunder_explicit : forall d k, In d dunder_nodes -> reach tbl d k -> In k root_ids \/ sub (direct tbl k) EXPLICIT_OK = true.
 Proof.
